@@ -550,9 +550,14 @@ fn list_item(args: &Args, file: &str, selector: &str) {
     let parsed = syn::parse_file(&src).unwrap_or_else(|e| die(&format!("parse: {}", e)));
     let found = find(&parsed, selector);
     for f in found {
-        if let Found::ImplFn(_, func) = f {
+        let block: Option<&syn::Block> = match &f {
+            Found::ImplFn(_, func) => Some(&func.block),
+            Found::Item(syn::Item::Fn(func)) => Some(&*func.block),
+            _ => None,
+        };
+        if let Some(block) = block {
             let mut c = rewrite::Collector::default();
-            c.visit_block(&func.block);
+            c.visit_block(block);
             for (i, s) in c.stmts.iter().enumerate() {
                 let (a, b) = *s;
                 println!("stmt {:3}: {}", i, norm(&src[a..b]).chars().take(100).collect::<String>());
@@ -631,10 +636,13 @@ fn locate_fragment(c: &rewrite::Collector, kind: &str, anchor: &str, sel: &str) 
             hits[k].1
         }
         "closure" => {
-            let n: usize = anchor.parse().unwrap_or_else(|_| die("fragment: closure N"));
-            match c.closure_nodes.get(n) {
+            let found = match anchor.parse::<usize>() {
+                Ok(n) => c.closure_nodes.get(n),
+                Err(_) => c.closure_nodes.iter().find(|cl| cl.key == anchor),
+            };
+            match found {
                 Some(cl) => cl.body,
-                None => die(&format!("lost anchor: {} has no closure {}", sel, n)),
+                None => die(&format!("lost anchor: {} has no closure {}", sel, anchor)),
             }
         }
         "let" => {
@@ -652,12 +660,13 @@ fn emit_fragment(em: &mut Emit, spec: &ItemSpec, src: &str, parsed: &syn::File, 
     if found.len() != 1 {
         die(&format!("lost anchor: selector `{}` matches {} items (template line {})", spec.selector, found.len(), spec.tmpl_line));
     }
-    let (im, f) = match &found[0] {
-        Found::ImplFn(im, f) => (*im, *f),
-        _ => die("fragments are only supported for methods"),
+    let (impl_ty, f_sig, f_block, f_span): (Option<String>, &syn::Signature, &syn::Block, proc_macro2::Span) = match &found[0] {
+        Found::ImplFn(im, f) => (Some(type_name(&im.self_ty)), &f.sig, &f.block, f.span()),
+        Found::Item(syn::Item::Fn(f)) => (None, &f.sig, &*f.block, f.span()),
+        _ => die("fragments are only supported for functions and methods"),
     };
     let mut c = rewrite::Collector::default();
-    c.visit_block(&f.block);
+    c.visit_block(f_block);
     if spec.mode == "skeleton" {
         let mut holes: Vec<(usize, usize)> = Vec::new();
         for h in &spec.sig {
@@ -665,8 +674,8 @@ fn emit_fragment(em: &mut Emit, spec: &ItemSpec, src: &str, parsed: &syn::File, 
             holes.push(locate_fragment(&c, kind, anchor.trim(), &spec.selector));
         }
         holes.sort();
-        let (_, fe) = br(f.span());
-        let fs = br(f.sig.span()).0; // doc comments / attributes / visibility are not part of the skeleton
+        let (_, fe) = br(f_span);
+        let fs = br(f_sig.span()).0; // doc comments / attributes / visibility are not part of the skeleton
         let mut t = String::new();
         let mut pos = fs;
         for (a, b) in &holes {
@@ -691,7 +700,10 @@ fn emit_fragment(em: &mut Emit, spec: &ItemSpec, src: &str, parsed: &syn::File, 
     let (s, e) = locate_fragment(&c, &fr.kind, &fr.anchor, &spec.selector);
     let out_start = em.line;
     em.push(&format!("//@begin-fragment {} {} [{} {}] as {} src_lines={}-{}\n", spec.file, spec.selector, fr.kind, fr.anchor, fr.name, line_of(src, s), line_of(src, e)), json!({"kind": "marker"}));
-    let mut head = format!("impl {} {{\n", type_name(&im.self_ty));
+    let mut head = match &impl_ty {
+        Some(t) => format!("impl {} {{\n", t),
+        None => String::new(),
+    };
     for a in &spec.attrs {
         let _ = writeln!(head, "#[{}]", a);
     }
@@ -704,8 +716,14 @@ fn emit_fragment(em: &mut Emit, spec: &ItemSpec, src: &str, parsed: &syn::File, 
     let mut t = String::new();
     for l in &spec.first { t.push_str(l); t.push('\n'); }
     em.push(&t, json!({"kind": "first"}));
-    em.push(&src[s..e], json!({"kind": "verbatim", "file": spec.file, "src_line": line_of(src, s)}));
-    em.push("\n}\n}\n//@end\n", json!({"kind": "wrap"}));
+    // rewrites inside the lifted span: closure contracts / parameter types (anchors refer to the closures of
+    // the HOST function), R5 iterator entry, R6 for-patterns, R9
+    let mut frag_edits: Vec<Edit> = Vec::new();
+    let mut frag_rewrites: Vec<String> = Vec::new();
+    inner_edits(spec, src, f_block, &c, &mut frag_edits, &mut frag_rewrites);
+    frag_edits.retain(|ed| ed.start >= s && ed.end <= e);
+    apply_edits(src, s, e, &mut frag_edits, em, &spec.file);
+    em.push(if impl_ty.is_some() { "\n}\n}\n//@end\n" } else { "\n}\n//@end\n" }, json!({"kind": "wrap"}));
     items_json.push(json!({"file": spec.file, "path": "", "selector": format!("{} [{} {}]", spec.selector, fr.kind, fr.anchor), "mode": "fragment",
         "byte_start": s, "byte_end": e, "src_line_start": line_of(src, s), "src_line_end": line_of(src, e),
         "out_line_start": out_start, "out_line_end": em.line - 1,
@@ -938,6 +956,12 @@ fn fn_edits(
             });
         }
     }
+    inner_edits(spec, src, block, &c, edits, rewrites);
+}
+
+/// closure contracts / parameter typing (R6), iterator entry (R5), for-patterns (R6), R9 — shared by whole
+/// functions and by lifted fragments
+fn inner_edits(spec: &ItemSpec, src: &str, block: &syn::Block, c: &rewrite::Collector, edits: &mut Vec<Edit>, rewrites: &mut Vec<String>) {
     // closures: contract splice + explicit parameter typing (R6)
     let find_closure = |n: &String| -> Option<&rewrite::ClosureInfo> {
         match n.parse::<usize>() {
